@@ -8,7 +8,7 @@ RECL_QUICK = [('HPs<3>', '_hp'), ('EBR', '_ebr'), ('LFRC', '_lfrc')]
 RECL_ALL = RECL_QUICK + [('HEs<3>', '_he'), ('NEBR', '_nebr'), ('DEBRA', '_debra'), ('QSBR', '_qsbr'), ('STAMP', '_stamp')]
 def harnesses(tier):
     return [('uq', ('XV_RECL=%s' % r,) + (('XV_NO_KF',) if r == 'LFRC' else ()), False, sfx) for r, sfx in (RECL_ALL if tier == 'thorough' else RECL_QUICK)] + [('vyu', (), False, ''), ('uq', ('XV_RECL=GC',), False, '_gc')]
-PROPERTY_FILES = ['Properties_C07', 'Properties_C04_ram']
+PROPERTY_FILES = ['Properties_C07', 'Properties_C04_ram', 'Properties_C07_models']
 HARNESSES = harnesses('quick')
 ASSUMPTIONS = [
     'element kinds: Obj (non-trivial movable owning a heap token), std::unique_ptr<Tok>, raw Tok*, small int; every token is a tracked heap block: a second destruction is a double free caught by the xvrt allocator, a leak is a live token after the queue is destroyed',
